@@ -634,6 +634,16 @@ def run(prog, rep):
 RENAME_LOCALS = ['src/puthread.c', 'src/puthread-posix.c']
 
 SELFTEST = [
+    dict(id="shutdown-drops-spin-through-slot-helper-neutral", expect=None, edits=[
+        dict(file="src/puthread.c", old="\tif (P_LIKELY (pp_uthread_new_spin != NULL)) {\n\t\tp_spinlock_free (pp_uthread_new_spin);\n\t\tpp_uthread_new_spin = NULL;\n\t}",
+             new="\tpp_uthread_drop_spin (&pp_uthread_new_spin);"),
+        dict(file="src/puthread.c", old="void\np_uthread_shutdown (void)",
+             new="static void\npp_uthread_drop_spin (PSpinLock **slot)\n{\n\tif (P_UNLIKELY (*slot == NULL))\n\t\treturn;\n\n\tp_spinlock_free (*slot);\n\t*slot = NULL;\n}\n\nvoid\np_uthread_shutdown (void)")]),
+    dict(id="shutdown-slot-helper-forgets-reset", expect="C05.1", edits=[
+        dict(file="src/puthread.c", old="\tif (P_LIKELY (pp_uthread_new_spin != NULL)) {\n\t\tp_spinlock_free (pp_uthread_new_spin);\n\t\tpp_uthread_new_spin = NULL;\n\t}",
+             new="\tpp_uthread_drop_spin (&pp_uthread_new_spin);"),
+        dict(file="src/puthread.c", old="void\np_uthread_shutdown (void)",
+             new="static void\npp_uthread_drop_spin (PSpinLock **slot)\n{\n\tif (P_UNLIKELY (*slot == NULL))\n\t\treturn;\n\n\tp_spinlock_free (*slot);\n}\n\nvoid\np_uthread_shutdown (void)")]),
     dict(id="local-free-deletes-native-key", file="src/puthread-posix.c", expect="C05.4",
          old="p_uthread_local_free (PUThreadKey *key)\n{\n\tif (P_UNLIKELY (key == NULL))\n\t\treturn;\n", new="p_uthread_local_free (PUThreadKey *key)\n{\n\tif (P_UNLIKELY (key == NULL))\n\t\treturn;\n\n\tif (key->key != NULL)\n\t\tpthread_key_delete (*key->key);\n"),
     dict(id="shutdown-wipes-slot-without-unref", file="src/puthread.c", expect="C05.2",
